@@ -36,6 +36,14 @@ func ruleC07(r *Report) {
 	})
 	r.Rule("C07.sig-methods", "the SP's signature validator leaves the choice of acceptable signature and digest algorithms to goxmldsig (it does not read SignatureMethod/DigestMethod/Algorithm itself): every method the IdP can be configured with verifies", 1)
 	safely(r, func() { checkNoAlgorithmFilter(r, p, "C07.sig-methods") })
+	// "every registered SP metadata with an encryption certificate": the IdP encrypts to the certificate registered now
+	// (C08.current-key, borrowed) — a remembered certificate is one the SP may no longer hold the key for
+	r.Rule("C07.encryption-key", "the IdP's encryption certificate is a function of the SP metadata registered now (C08.current-key, borrowed): after a key roll-over the SP can decrypt what the IdP sends", 1)
+	r.borrow("C08.current-key", "C07.encryption-key", func() {
+		sel, _ := encCertSelector(p)
+		checkNoProcessStateFor(r, p, sel, "C08.current-key", "the encryption certificate does not depend on state the library keeps between calls",
+			"the certificate selection consults", "assertions keep being encrypted to the certificate seen first after the SP registered a new one, which the SP's current key cannot open")
+	})
 	// the request leg of the round trip: the IdP does not turn away what this library's SP sends (C05.accept, borrowed)
 	r.Rule("C07.request-leg", "the IdP's validator accepts a fresh, well-addressed request from a registered SP, signed or not, over either binding (the accept scenarios of C05, borrowed): without that no response is produced for the configuration", 1)
 	borrowAccept(r, "C07.request-leg")
